@@ -7,6 +7,7 @@ def main():
     tier = sys.argv[3] if len(sys.argv) > 3 else "quick"
     worker.init_symbolic()
     mod = worker.harness_module(prop)
+    worker.harness_setup(prop)
     for name, fn, params in mod.units(tier):
         if pat not in name:
             continue
